@@ -108,6 +108,17 @@ static void caseC09(uint64_t idx, vh::Rng& g)
 		}
 		catch (std::exception& e) { R->violation("C09/" + sel + "/exception", e.what()); }
 	}
+	if (idx % static_cast<uint64_t>(R->param("cli_every", 200)) == 0)
+	{	// the same pair through `vata -r expl_fa`
+		std::string fa = R->outdir + "/" + R->tag + ".A.txt", fb = R->outdir + "/" + R->tag + ".B.txt"; writeFile(fa, faToTimbuk(a, nsym, "A")); writeFile(fb, faToTimbuk(b, nsym, "B"));
+		const char* opts[][2] = {{"alg=antichains", "cli/antichains"}, {"alg=congr,order=depth", "cli/congr-depth"}, {"alg=congr,order=breadth", "cli/congr-breadth"}};
+		for (auto& o : opts)
+		{
+			R->phase(o[1]); R->count(std::string("runs:") + o[1]); int rc = 0; std::string out = runVata(std::string("-r expl_fa -o ") + o[0] + " incl " + fa + " " + fb, rc);
+			if (rc != 0 || (out.compare(0, 1, "1") != 0 && out.compare(0, 1, "0") != 0)) R->violation(std::string("C09/") + o[1] + "/cli-failed", "exit " + vh::str(rc) + ": " + out.substr(0, 300));
+			else if ((out[0] == '1') != ref) R->violation(std::string("C09/") + o[1] + (out[0] == '1' ? "/falsely-included" : "/falsely-rejected"), "");
+		}
+	}
 	R->phase("default-params");
 	try { FA x = loadFA(a, nsym, "A"), y = loadFA(b, nsym, "B"); bool r = FA::CheckInclusion(x, y); if (r != ref) R->violation(std::string("C09/default-params") + (r ? "/falsely-included" : "/falsely-rejected"), ""); auditReports = 0; auditFirst.clear(); }
 	catch (std::exception& e) { R->violation("C09/default-params/exception", e.what()); }
